@@ -39,7 +39,7 @@ _AMB_CTX = None
 _AMB_N = 0
 
 
-def _ambient_context(key=''):
+def _ambient_context(key='', strict=False):
     """One of two unusual decimal contexts, chosen by the call itself (a pure function of its arguments: the same call always
     runs under the same settings, so replays and shrinking stay deterministic)."""
     import decimal
@@ -47,20 +47,25 @@ def _ambient_context(key=''):
     global _AMB_CTX
     if _AMB_CTX is None:
         _AMB_CTX = [decimal.Context(prec=6, rounding=decimal.ROUND_FLOOR), decimal.Context(prec=3, rounding=decimal.ROUND_UP)]
-    return _AMB_CTX[zlib.crc32(key.encode('utf-8', 'replace')) % 2]
+    c = _AMB_CTX[zlib.crc32(key.encode('utf-8', 'replace')) % 2]
+    if strict:
+        # for callers that hand over Decimals only: accidental mixing of floats and Decimals is trapped as well
+        c = c.copy()
+        c.traps[decimal.FloatOperation] = True
+    return c
 
 
 class ambient(object):
     """Context manager form of the ambient settings (used by the drivers that call the library directly)."""
 
-    def __init__(self, key=''):
-        self.key = key
+    def __init__(self, key='', strict=False):
+        self.key, self.strict = key, strict
 
     def __enter__(self):
         if AMBIENT:
             import decimal
             self.old = decimal.getcontext()
-            decimal.setcontext(_ambient_context(self.key).copy())
+            decimal.setcontext(_ambient_context(self.key, self.strict).copy())
         return self
 
     def __exit__(self, *a):
